@@ -293,16 +293,24 @@ def dddmpRebuild (o2n : List (Int × Int)) (bdd : List (Int × DddmpEntry)) :
     | (.ok umap', m') => dddmpRebuild o2n bdd n umap' m'
 
 /-- everything `load` computes: the manager and `umap` (the latter for the theorems) -/
-def loadDddmpU (f : DddmpFile) : Except Err (Mgr × List (Int × Int)) := do
-  let (i2p, levels, roots) ← dddmpHeader f
-  let bdd ← dddmpBody f i2p
-  let (newLevels, o2n) ← dddmpReindex levels
-  let m0 ← dddmpNewMgr newLevels
-  match dddmpRebuild o2n bdd newLevels.length dddmpUmap0 m0 with
-  | (.error e, _) => throw e
-  | (.ok umap, m) =>
-    -- `bdd.roots.update(roots)`: the numbers of the FILE go into `roots` as they are
-    pure ({ m with roots := roots }, umap)
+def loadDddmpU (f : DddmpFile) : Except Err (Mgr × List (Int × Int)) :=
+  match dddmpHeader f with
+  | .error e => .error e
+  | .ok (i2p, levels, roots) =>
+    match dddmpBody f i2p with
+    | .error e => .error e
+    | .ok bdd =>
+      match dddmpReindex levels with
+      | .error e => .error e
+      | .ok (newLevels, o2n) =>
+        match dddmpNewMgr newLevels with
+        | .error e => .error e
+        | .ok m0 =>
+          match dddmpRebuild o2n bdd newLevels.length dddmpUmap0 m0 with
+          | (.error e, _) => .error e
+          | (.ok umap, m) =>
+            -- `bdd.roots.update(roots)`: the numbers of the FILE go into `roots` as they are
+            .ok ({ m with roots := roots }, umap)
 
 /-- `dd.dddmp.load(fname)` on the abstract content of the file -/
 def loadDddmp (f : DddmpFile) : Except Err Mgr :=
